@@ -56,6 +56,16 @@ def observe(c):
     except Exception:  # noqa: BLE001  (C01's business)
         return []
     inv_exact = build.mat_to_np(c["inv"])
+    sc = c.get("_scale")
+    floor = 1.0
+    if sc is not None:
+        # the same dense operator times a power of ten: inv(cA) = inv(A) / c; tolerances follow the scale (no floor)
+        inner = t["a"][0] if t["k"] == "Annot" else t
+        As = cola.ops.Dense(np.asarray(build.build(inner).A) * sc)
+        A = build.ANN[t["p"]["ann"]](As) if t["k"] == "Annot" else As
+        Dn, inv_exact, floor = Dn * sc, inv_exact / sc, 0.0
+        case = f"{sc:g} * {case}"
+        at["op_scale"] = f"{sc:g}"
     n = Dn.shape[0]
     dt = c["dt"]
     tdt = opsfam.tol_dt(c)
@@ -85,7 +95,7 @@ def observe(c):
                     V("value", f"{what}: non-finite result", **extra)
                     return
                 err = float(np.max(np.abs(got.astype(np.complex128) - exp)))
-                if err > rtol * max(1.0, float(np.max(np.abs(exp)))):
+                if err > rtol * max(floor, float(np.max(np.abs(exp)))):
                     V("value", f"{what}: max abs error {err:.3g} (tolerance {rtol:.2g} x scale)", what=what.split("[")[0],
                       **extra)
 
@@ -199,6 +209,10 @@ def run(tier):
         deep = [c for c in cases if c["lvl"] > 1]
         step = max(1, len(deep) // 2200)
         cases = [c for c in cases if c["lvl"] <= 1] + deep[common.seed() % step::step]
+    scaled = [dict(c, _scale=f) for c in cases
+              if (c["t"]["k"] == "Dense" or (c["t"]["k"] == "Annot" and c["t"]["a"][0]["k"] == "Dense"))
+              and opsfam.tol_dt(c) in ("f64", "c128") for f in (1e-9, 1e6)]
+    cases = cases + scaled
     res = common.pmap(observe, cases, chunksize=8)
     viol = [v for r in res for v in r]
     viol += large_switch()
